@@ -18,7 +18,9 @@ Coerce ==
     ryes |-> B(TRUE), rtrue |-> B(TRUE), rno |-> B(FALSE), rfalse |-> B(FALSE),
     rYes |-> Tx("Yes"), rTrue |-> Tx("True"), rFALSE |-> Tx("FALSE"),
     rempty |-> Tx(""), rhello |-> Tx("hello"), rspaces |-> Tx("hello big world"),
-    rjson |-> Tx("{\"a\": 1}"), rinfo |-> Tx("info"), r4x |-> Tx("4x"), rfloat |-> Tx("1.5"), rmerged |-> Tx("merged"), rdebug |-> Tx("debug") ]
+    rjson |-> Tx("{\"a\": 1}"), rinfo |-> Tx("info"), r4x |-> Tx("4x"), rfloat |-> Tx("1.5"), rmerged |-> Tx("merged"), rdebug |-> Tx("debug"),
+    (* fragments and look-alikes of the four boolean words stay text *)
+    rn |-> Tx("n"), ry |-> Tx("y"), rals |-> Tx("als"), rru |-> Tx("ru"), rnone |-> Tx("none"), ryesno |-> Tx("yesno") ]
 Raws == DOMAIN Coerce
 
 Defaults == [verbose |-> Tx("info"), clean_logs |-> B(TRUE), use_spec_hashes |-> B(FALSE)]
